@@ -4,6 +4,7 @@ package api
 
 import (
 	"encoding/json"
+	"errors"
 	"fmt"
 	"net/http"
 	"net/http/httptest"
@@ -91,6 +92,10 @@ type c18Op struct {
 	Body string `json:"body"`
 	M    int    `json:"m"`   // member whose server handles the request
 	Bad  string `json:"bad"` // "" | yaml | kind | urlname : malformed request (400 before the lock)
+	// cluster double only: the Fault-th cluster operation (Get/Put/Delete) of this request fails once.
+	// 1 = version read of the middleware, 2 = object read, 3 = object put/delete, 4 = in-lock version
+	// read, 5 = version write; 0 = no fault
+	Fault int `json:"fault"`
 }
 
 type c18ApiIn struct {
@@ -107,6 +112,7 @@ type c18OpObs struct {
 	Call   int64  `json:"call"`
 	Ret    int64  `json:"ret"`
 	Status int    `json:"status"`
+	Hit    bool   `json:"hit"` // the injected fault was reached
 	Ver    int64  `json:"ver"`
 	Kind   string `json:"kind"`
 	Body   string `json:"body"`
@@ -154,13 +160,42 @@ func (c *c18Mem) pause() {
 	}
 }
 
-func c18NewMem(yield bool) (*c18Mem, *clustertest.MockedCluster) {
-	c := &c18Mem{kv: map[string]string{}, yield: yield}
+// c18Fault fails the at-th Get/Put/Delete issued through one facade since the last reset, once.
+type c18Fault struct {
+	at, n int
+	hit   bool
+}
+
+var errC18Fault = errors.New("c18: injected cluster fault")
+
+func (f *c18Fault) reset(at int) { f.at, f.n, f.hit = at, 0, false }
+
+func (f *c18Fault) tick() error {
+	f.n++
+	if f.at > 0 && f.n == f.at {
+		f.hit = true
+		return errC18Fault
+	}
+	return nil
+}
+
+func c18NewMem(yield bool) *c18Mem {
+	return &c18Mem{kv: map[string]string{}, yield: yield}
+}
+
+// facade returns one client's view of the in-memory cluster: shared store and lock, own fault counter
+// (every client goroutine of a case has its own API server on its own facade, so that "the k-th cluster
+// operation of this request" is well defined)
+func (c *c18Mem) facade() (*clustertest.MockedCluster, *c18Fault) {
+	flt := &c18Fault{}
 	mc := clustertest.NewMockedCluster()
 	layout := &cluster.Layout{}
 	mc.MockedLayout = func() *cluster.Layout { return layout }
 	mc.MockedGet = func(key string) (*string, error) {
 		c.pause()
+		if err := flt.tick(); err != nil {
+			return nil, err
+		}
 		c.mu.Lock()
 		defer c.mu.Unlock()
 		if v, ok := c.kv[key]; ok {
@@ -182,6 +217,9 @@ func c18NewMem(yield bool) (*c18Mem, *clustertest.MockedCluster) {
 	}
 	mc.MockedPut = func(key, value string) error {
 		c.pause()
+		if err := flt.tick(); err != nil {
+			return err
+		}
 		c.mu.Lock()
 		c.kv[key] = value
 		c.mu.Unlock()
@@ -190,6 +228,9 @@ func c18NewMem(yield bool) (*c18Mem, *clustertest.MockedCluster) {
 	}
 	mc.MockedDelete = func(key string) error {
 		c.pause()
+		if err := flt.tick(); err != nil {
+			return err
+		}
 		c.mu.Lock()
 		delete(c.kv, key)
 		c.mu.Unlock()
@@ -207,7 +248,7 @@ func c18NewMem(yield bool) (*c18Mem, *clustertest.MockedCluster) {
 		return nil
 	}
 	mc.MockedMutex = func(name string) (cluster.Mutex, error) { return c18MemMutex{c}, nil }
-	return c, mc
+	return mc, flt
 }
 
 // ---- servers
@@ -348,17 +389,23 @@ func c18Exec(in c18ApiIn, real *c18RealEnv) (obs c18ApiObs) {
 			obs.Err = fmt.Sprintf("panic: %v", p)
 		}
 	}()
-	var srvs []*c18Srv
+	var srvs []*c18Srv // conc-real: one per member
+	var gsrv []*c18Srv // cluster double: one per client goroutine (+ one for set-up / listing)
+	var gflt []*c18Fault
 	var base cluster.Cluster
 	if in.Mode == "conc-real" {
 		srvs = real.srvs
 		base = real.members[0]
 	} else {
-		_, mc := c18NewMem(in.Mode == "conc-mock")
+		// the "members" of the in-memory cluster share the store and the (process-wide) lock
+		mem := c18NewMem(in.Mode == "conc-mock")
+		mc, _ := mem.facade()
 		base = mc
-		for i := 0; i < in.Members; i++ {
-			// the members of the in-memory cluster share the store and the (process-wide) lock
-			srvs = append(srvs, c18NewSrv(mc))
+		srvs = []*c18Srv{c18NewSrv(mc)}
+		for range in.Gs {
+			fc, flt := mem.facade()
+			gsrv = append(gsrv, c18NewSrv(fc))
+			gflt = append(gflt, flt)
 		}
 	}
 	// initial store
@@ -392,15 +439,28 @@ func c18Exec(in c18ApiIn, real *c18RealEnv) (obs c18ApiObs) {
 			for i, op := range ops {
 				o := c18OpObs{G: gi, I: i, Ver: -1}
 				func() {
+					srv := srvs[op.M%len(srvs)]
+					var flt *c18Fault
+					if gsrv != nil {
+						srv, flt = gsrv[gi], gflt[gi]
+						flt.reset(op.Fault)
+					}
 					defer func() {
 						if p := recover(); p != nil {
 							o.Status = 599 // a panic that escaped the recoverer middleware
+							if o.Ret == 0 {
+								o.Ret = atomic.AddInt64(&clock, 1)
+							}
+						}
+						if flt != nil {
+							o.Hit = flt.hit
+							flt.reset(0)
 						}
 					}()
 					req := c18Request(op)
 					w := httptest.NewRecorder()
 					o.Call = atomic.AddInt64(&clock, 1)
-					srvs[op.M%len(srvs)].h.ServeHTTP(w, req)
+					srv.h.ServeHTTP(w, req)
 					o.Ret = atomic.AddInt64(&clock, 1)
 					o.Status = w.Code
 					if v, err := strconv.ParseInt(w.Header().Get(ConfigVersionKey), 10, 64); err == nil {
@@ -452,7 +512,9 @@ func c18Exec(in c18ApiIn, real *c18RealEnv) (obs c18ApiObs) {
 
 // ---- generators
 
-var c18Names = []string{"obj-a", "obj-b", "obj-c", "obj-d"}
+// names that are string prefixes of each other: the object keys /config/objects/<name> of different
+// objects then are prefixes of each other too
+var c18Names = []string{"obj-a", "obj-ab", "obj-a-b", "obj-b"}
 var c18Kinds = []string{"C18KindA", "C18KindB"}
 
 func c18GenOp(r *vfRand, members int, nnames int, adv bool) c18Op {
@@ -491,7 +553,7 @@ func c18GenApi(r *vfRand, mode string, adv bool) c18ApiIn {
 		nnames = r.PickInt(1, 1, 2)
 	}
 	for i := 0; i < nnames; i++ {
-		if r.Chance(2, 5) {
+		if r.Chance(2, 5) || (mode == "conc-real" && r.Chance(1, 3)) {
 			in.Init = append(in.Init, c18Obj{Name: c18Names[i], Kind: c18Kinds[r.Intn(2)], Body: fmt.Sprintf("i%d", i)})
 		}
 	}
@@ -508,6 +570,22 @@ func c18GenApi(r *vfRand, mode string, adv bool) c18ApiIn {
 			ops = append(ops, c18GenOp(r, in.Members, nnames, adv))
 		}
 		in.Gs = append(in.Gs, ops)
+	}
+	// fault injection (cluster double only): one cluster operation of one request fails once
+	if mode != "conc-real" && (r.Chance(1, 3) || adv && r.Bool()) {
+		for try := 0; try < 6; try++ {
+			g := r.Intn(len(in.Gs))
+			i := r.Intn(len(in.Gs[g]))
+			op := &in.Gs[g][i]
+			if try < 4 && (op.Op == "get" || op.Bad != "") {
+				continue // prefer a mutation: only there a fault can separate object write and version write
+			}
+			op.Fault = r.PickInt(1, 2, 3, 4, 4, 4, 5, 5)
+			if op.Op == "get" {
+				op.Fault = r.PickInt(1, 2)
+			}
+			break
+		}
 	}
 	return in
 }
